@@ -162,7 +162,7 @@ class C06(Check):
         im = Impl()
         self.im = im
         try:
-            for part in (self.oracle_record, self.run_corpus, self.corr_append, self.run_namespaces,
+            for part in (self.oracle_record, self.run_corpus, self.corr_append, self.run_namespaces, self.run_block_ends,
                          self.run_sheets, self.run_files, self.oracle_restore):
                 ctx.phase(part, ctx, im)
         finally:
@@ -553,6 +553,30 @@ class C06(Check):
                     pending += self.check_sheet(ctx, im, head + body + tail, recs, 'namespace-place')
         self.flush(ctx, pending)
 
+    # -- what a block ends with, for every kind of block ------------------------------------------------
+    BLOCK_TAILS = ['e\\ ', 'x e\\ ', '"s"', 'f(x)', '1px', '#aabbcc', 'url(a\\ )',
+                   'red /*c*/', 'e\\  /*c*/', 'e\\\\', 'red !important']
+    BLOCK_KINDS = ['a{x:%s}', 'a{x:%s;}', '@variables{a:%s} b{x:var(a)}', '@variables{c:1px;a:%s}',
+                   '@variables{a:%s;}', '@page{x:%s}', '@page{x:%s;@top-left{y:%s}}', '@font-face{font-family:%s}',
+                   'a{x:%s;/*last*/}', '@variables{a:%s;/*last*/}']
+
+    def run_block_ends(self, ctx, im):
+        """Every kind of declaration / variables block ending in every kind of value (escaped blank, string, function,
+        comment, ...) under the default record, every single preference and the minified preset: the end of a block is
+        where the last-semicolon omission, the closing brace and the final strip of the block text meet."""
+        recs = [{}] + self.singles(im) + [diff_prefs(im.minified, im.defaults),
+                                         {'resolveVariables': False, 'omitLastSemicolon': False},
+                                         {'resolveVariables': False, 'lineSeparator': ''},
+                                         {'resolveVariables': False, 'keepComments': False}]
+        pending = []
+        for kind in self.BLOCK_KINDS:
+            for tail in self.BLOCK_TAILS:
+                pending += self.check_sheet(ctx, im, kind.replace('%s', tail), recs, 'block-end')
+            if len(pending) > 4000:
+                self.flush(ctx, pending)
+                pending = []
+        self.flush(ctx, pending)
+
     def run_sheets(self, ctx, im):
         rng = ctx.sub_rng('sheets')
         singles = self.singles(im)
@@ -607,7 +631,7 @@ class C06(Check):
     # -- Out.append scripts against the real Out class ----------------------------------------------
     VALS = ['+', '>', '~', ',', ':', '{', ';', ')', ']', '/', '=', '}', '[', '(', '-', '*', 'a', 'b c', 'x ', ' ', '', '  ',
             '1px', '"s"', 'f(', '#aabbcc', '#abc', '#aabbcd', ')]', '/=', '+>', '()', '{}', 'a\nb', '\n', 'url(x)', 'a b',
-            '#AABBCC', '}\n', '!important', '@x', '.5', 'é', '\t', 'a\t', 'b\\ ', '\\ ', 'x\\\\ ', 'c\\  ']
+            '#AABBCC', '}\n', '!important', '@x', '.5', 'é', '\t', 'a\t', 'a\x7fb', 'a\x01', 'b\\ ', '\\ ', 'x\\\\ ', 'c\\  ']
     TYPES = ['COMMENT', 'S', 'STRING', 'URI', 'HASH', 'FUNCTION', 'adjacent-sibling', 'child', 'following-sibling', 'plus',
              'styletext', 'IDENT', 'CHAR', 'CHAR', 'CHAR', None, None, None, 'DIMENSION', 'Value', 'operator', 'COMMA',
              'descendant', 'ATKEYWORD', 'COLOR_VALUE']
